@@ -48,6 +48,7 @@ class Outcome:
     label: str = ""
     facts: list = field(default_factory=list)         # extra ground facts about the result (assumed by callers, proved by the body)
     out: z3.ExprRef | None = None                     # generators: the yielded sequence
+    fact_schemas: list = field(default_factory=list)  # quantified facts about the result (proved by the body, assumed by callers)
 
 
 @dataclass
@@ -148,6 +149,10 @@ class OutcomeBuilder:
 
     def fact(self, f):
         self.o.facts.append(f)
+        return self
+
+    def fact_schema(self, sch):
+        self.o.fact_schemas.append(sch)
         return self
 
     def fresh(self, cname_or_cls, name="new"):
